@@ -22,32 +22,33 @@ from ..Progress import Progress
 from .CollectionDict import CollectionDict
 
 
-def remove_duplicate_surfaces(surfs, keep=()):
+def remove_duplicate_surfaces(surfs, flags=None):
     '''This function that detects duplicate surfaces from a surface dictionary,
     removes them and provides a dictionary where the IDs of the deleted
     surfaces are associated with the ID of the surface that replaced them.
 
-    The surfaces whose IDs are in `keep` are neither removed nor used as a
-    replacement for another surface: they carry a boundary condition, which
-    the cells bounded by an identical surface without one must not inherit.
+    `flags` maps the IDs of the surfaces that carry a boundary condition to
+    that condition. Two identical surfaces are only merged if they carry the
+    same condition (or none): the cells bounded by a surface without a
+    condition must not inherit the condition of an identical flagged one.
     '''
     renumbering = {}
     new_surfs = CollectionDict()
     surf_to_id = {}
+    if flags is None:
+        flags = {}
 
     with Progress('detecting duplicates for surface',
                   len(surfs), max(surfs)) as progress:
         for i, (key, surf) in enumerate(sorted(surfs.items())):
             progress.update(i, key)
-            if key in keep:
-                new_surfs[key] = surf
-                renumbering[key] = key
-            elif surf in surf_to_id:
-                renumbering[key] = surf_to_id[surf]
+            ident = (surf, flags.get(key, ''))
+            if ident in surf_to_id:
+                renumbering[key] = surf_to_id[ident]
             else:
                 new_surfs[key] = surf
                 renumbering[key] = key
-                surf_to_id[surf] = key
+                surf_to_id[ident] = key
 
     return new_surfs, renumbering
 
